@@ -46,11 +46,17 @@ func bootConsensus() {
 type chainStub struct {
 	core.BlockChain
 	exists    bool
+	existHits int // HasBlockByHash answered true (the only source of round1/round2 errors besides checkSignature)
 	generated []types.BlockHeader
 	added     chan struct{}
 }
 
-func (c *chainStub) HasBlockByHash(h common.Hash) bool { return c.exists }
+func (c *chainStub) HasBlockByHash(h common.Hash) bool {
+	if c.exists {
+		c.existHits++
+	}
+	return c.exists
+}
 func (c *chainStub) QueryBlockByHash(h common.Hash) *types.Block {
 	if c.exists {
 		return &types.Block{Header: &types.BlockHeader{Hash: h}}
@@ -165,24 +171,29 @@ type runner struct {
 	viols  []viol
 	seen   map[string]bool
 	evals  int
+	buf    *[][2]string // when set, ops are collected instead of written (deferred scripts)
 }
 
 type scen struct {
-	ks      *keyset
-	hash    common.Hash
-	prand   []byte
-	pk      map[int]bool
-	chain   *chainStub
-	round   *logical.VerifC15Round
-	tags    map[string]int
-	mids    map[string]int
-	rng     *hx.Rng
-	vcache  map[string]bool
-	honest  map[int]bool // members whose fully honest message was delivered to the live party
-	foreign bool         // a sign key is registered for somebody outside the DKG (precondition of the property broken by the scenario)
-	entered bool
-	ending  string
-	sc      script
+	ks           *keyset
+	hash         common.Hash
+	prand        []byte
+	pk           map[int]bool
+	chain        *chainStub
+	round        *logical.VerifC15Round
+	tags         map[string]int
+	mids         map[string]int
+	rng          *hx.Rng
+	vcache       map[string]bool
+	honest       map[int]bool // members whose fully honest message was delivered to the live party
+	foreign      bool         // a sign key is registered for somebody outside the DKG (precondition of the property broken by the scenario)
+	entered      bool
+	ending       string
+	lastHits     int
+	seenFinished bool
+	reaped       bool
+	life         *lifeScen
+	sc           script
 }
 
 func (s *scen) tag(b []byte) int {
@@ -202,6 +213,8 @@ func (s *scen) data(name string) []byte {
 		return s.hash.Bytes()
 	case name == "R":
 		return s.prand
+	case name == "K":
+		return sha(s.hash.Bytes(), []byte("K0"))
 	case strings.HasPrefix(name, "X"):
 		return sha(s.hash.Bytes(), []byte(name))
 	}
@@ -422,15 +435,26 @@ type observed struct {
 }
 
 func (s *scen) observe(strayKey common.Hash) observed {
-	kind, _ := s.round.Settle()
-	if kind != "" {
-		s.ending = kind
-	}
-	if kind == "done" {
-		select {
-		case <-s.chain.added:
-		case <-time.After(5 * time.Second):
-			panic("AddBlockOnChain was not called after round2 finished")
+	// The REAL Processor.waitUntilDone goroutine reaps the party. An end event (Err or Done) was
+	// sent iff a handler saw HasBlockByHash answer true or round2.Start ran; only then do we wait.
+	st0 := s.round.State()
+	emitted := s.chain.existHits > s.lastHits || ((st0.Finished || st0.Ended || len(s.chain.generated) > 0) && !s.seenFinished)
+	s.lastHits = s.chain.existHits
+	s.seenFinished = s.seenFinished || st0.Finished || st0.Ended || len(s.chain.generated) > 0
+	if emitted && !s.reaped {
+		if !s.round.WaitReaped(3 * time.Second) {
+			panic("the reaper did not remove the party after an end event")
+		}
+		s.reaped = true
+		if len(s.chain.generated) > 0 {
+			s.ending = "done"
+			select {
+			case <-s.chain.added:
+			case <-time.After(5 * time.Second):
+				panic("AddBlockOnChain was not called after round2 finished")
+			}
+		} else {
+			s.ending = "err"
 		}
 	}
 	st := s.round.State()
@@ -486,6 +510,11 @@ func (r *runner) emit(op string, f func() string) string {
 		r.evals++
 		return hx.Guard(f)
 	}
+	if r.buf != nil {
+		res := hx.Guard(f)
+		*r.buf = append(*r.buf, [2]string{op, res})
+		return res
+	}
 	return r.out.Do(op, f)
 }
 
@@ -504,10 +533,8 @@ func (r *runner) addViol(s *scen, key, desc string, extra map[string]interface{}
 	r.viols = append(r.viols, viol{Key: key, Desc: desc, Replay: rep})
 }
 
-func (r *runner) runScript(sc script) {
-	if len(sc.lines) == 0 {
-		return
-	}
+// setup builds the scenario and the node-side objects named in a script header.
+func (r *runner) setup(sc script) (*scen, *model.GroupInfo, *types.BlockHeader, *types.BlockHeader, []int, bool) {
 	hd := kv(sc.lines[0])
 	n, _ := strconv.Atoi(hd["n"])
 	ks := getKeys(n)
@@ -558,6 +585,20 @@ func (r *runner) runScript(sc script) {
 	bh := &types.BlockHeader{Hash: s.hash, Height: 10, GroupId: jg.GroupID.Serialize()}
 	preBH := &types.BlockHeader{Height: 9, Random: s.prand}
 
+	return s, gi, bh, preBH, pkList, exists
+}
+
+func (r *runner) runScript(sc script) {
+	if len(sc.lines) == 0 {
+		return
+	}
+	hd := kv(sc.lines[0])
+	if hd["life"] == "1" {
+		r.runLife(sc, nil)
+		return
+	}
+	s, gi, bh, preBH, pkList, exists := r.setup(sc)
+	n, ks, lg := s.ks.n, s.ks, nopLogger{}
 	members := make([]int, n)
 	for i := range members {
 		members[i] = i
@@ -586,6 +627,7 @@ func (r *runner) runScript(sc script) {
 					return "start-error"
 				}
 				s.round = round
+				round.StartReaper()
 				round.Enter()
 				s.entered = true
 				o := s.observe(s.hash)
@@ -704,6 +746,12 @@ func (r *runner) checkFinal(s *scen) {
 	}
 	o := s.observe(s.hash)
 	if s.ending != "done" || !o.generated || !o.genG || !o.genR {
+		if s.life != nil && s.life.overStored {
+			r.addViol(s, "stored-share-lost-by-start-panic",
+				fmt.Sprintf("%d >= k=%d honest members' valid shares were delivered after the proposal was accepted from a chain notification, but the first one was stored by round0 next to a message with an over-long signer id; round1.Start ranged over that message first, its panic (ID.Serialize) escaped the loop and the honest share was never processed (its id stays in futureMessages, a re-send is refused)", len(s.honest), s.ks.k),
+				map[string]interface{}{"state": o.line, "note": "depends on Go map iteration order: the searcher repeats the script"})
+			return
+		}
 		r.addViol(s, "honest-quorum-not-finalised",
 			fmt.Sprintf("%d >= k=%d honest members' valid shares were delivered, yet the block was not finalised (ending=%q)", len(s.honest), s.ks.k, s.ending),
 			map[string]interface{}{"state": o.line})
